@@ -262,6 +262,7 @@ func (v *Visitor) visit(s *df.AnalyzerState, entrypoint *df.CallNodeArg) error {
 	}
 	stack := []*df.VisitorNode{root}
 
+	verifhook.At("backtrace.visit.enter")
 	for len(stack) != 0 {
 		verifhook.At("backtrace.visit.step")
 		cur := stack[len(stack)-1]
